@@ -37,6 +37,22 @@ def main():
     pinned_fns = json.load(open(pf)) if os.path.exists(pf) else {}
     text, _ = fns.generate(repo, pinned_fns, report)
     write_if_changed(os.path.join(out, "Fns.lean"), text)
+    # literal pool: every integer literal written in the translated source files
+    import rustlex
+    lits = set()
+    for f in ["injector_core/common.rs", "injector_core/patch_amd64.rs", "injector_core/patch_arm64.rs", "injector_core/patch_arm.rs",
+              "injector_core/arm64_codegenerator.rs", "injector_core/utils.rs"]:
+        try:
+            text = rustlex.strip_comments(open(os.path.join(repo, "src", f)).read())
+        except OSError:
+            continue
+        for m in re.finditer(r"(?<![A-Za-z0-9_.])(0x[0-9A-Fa-f_]+|0b[01_]+|[0-9][0-9_]*)(?:[iu](?:8|16|32|64|128|size))?\b", text):
+            v = rustlex.parse_int(m.group(1))
+            if v is not None and 16 < v < 2 ** 64:
+                lits.add(v)
+    os.makedirs(os.path.join(os.path.dirname(here), "build"), exist_ok=True)
+    write_if_changed(os.path.join(os.path.dirname(here), "build", "literal_pool.txt"), "".join("%x\n" % v for v in sorted(lits)))
+    report.setdefault("Fns", {})["literal_pool"] = len(lits)
     rp = os.path.join(os.path.dirname(here), "build", "translator_report.json")
     os.makedirs(os.path.dirname(rp), exist_ok=True)
     json.dump(report, open(rp, "w"), indent=1)
